@@ -94,9 +94,9 @@ SP =/ %x09
 cddl =/ S *(rule S) ";" *PCHAR
 ; '#(type)': a tag without number
 type2 =/ "#" "(" S type S ")"
-; h"...": hex-quoted byte string (content checked after parsing)
+; h"...": the crate's hex-quoted form; its grammar rule admits every character but the closing quote
 bytes =/ %s"h" %x22 *HQCHAR %x22
-HQCHAR = %x09 / %x20-21 / %x23-7E / NONASCII / CRLF
+HQCHAR = %x00-21 / %x23-D7FF / %xE000-10FFFF
 ; registered control operators (RFC 8610, RFC 9165, RFC 9741, cddl-freezer)
 ctlname = %s"size" / %s"bits" / %s"regexp" / %s"pcre" / %s"iregexp" / %s"cbor" / %s"cborseq" / %s"within" / %s"and"
         / %s"lt" / %s"le" / %s"gt" / %s"ge" / %s"eq" / %s"ne" / %s"default" / %s"cat" / %s"det" / %s"plus"
